@@ -9,6 +9,7 @@ import (
 
 	"golang.org/x/crypto/sha3"
 
+	"github.com/oasisprotocol/curve25519-voi/curve"
 	"github.com/oasisprotocol/curve25519-voi/primitives/h2c"
 
 	"verifharness/vt"
@@ -206,6 +207,7 @@ func recC14(c *ctx) {
 		e := vt.Ev{"op": "suite", "cfg": c.cfg, "dst": vt.B(dst), "msg": vt.B(msg)}
 		var enc []byte
 		var err error
+		tok := true
 		if !c.try("suite", vt.Ev{"i": i % 8}, func() {
 			switch i % 8 {
 			case 6:
@@ -214,6 +216,7 @@ func recC14(c *ctx) {
 				p, er := h2c.Edwards25519_XMD_ELL2_NU(crypto.SHA384, dst, msg)
 				if err = er; er == nil {
 					enc, _ = p.MarshalBinary()
+					tok = tConsistent(p)
 				}
 			case 7:
 				e["suite"], e["n"], e["kind"], e["xof"] = "edwards25519_XOF:SHAKE128_ELL2_NU_", 48, "nu", "shake128"
@@ -221,6 +224,7 @@ func recC14(c *ctx) {
 				p, er := h2c.Edwards25519_XOF_ELL2_NU(xofs["shake128"], dst, msg)
 				if err = er; er == nil {
 					enc, _ = p.MarshalBinary()
+					tok = tConsistent(p)
 				}
 			case 0:
 				e["suite"], e["n"], e["kind"], e["hash"], e["b"], e["r"] = "edwards25519_XMD:SHA-512_ELL2_RO_", 96, "ro", "sha512", 64, 128
@@ -228,6 +232,7 @@ func recC14(c *ctx) {
 				p, er := h2c.Edwards25519_XMD_SHA512_ELL2_RO(dst, msg)
 				if err = er; er == nil {
 					enc, _ = p.MarshalBinary()
+					tok = tConsistent(p)
 				}
 			case 1:
 				e["suite"], e["n"], e["kind"], e["hash"], e["b"], e["r"] = "edwards25519_XMD:SHA-512_ELL2_NU_", 48, "nu", "sha512", 64, 128
@@ -235,6 +240,7 @@ func recC14(c *ctx) {
 				p, er := h2c.Edwards25519_XMD_SHA512_ELL2_NU(dst, msg)
 				if err = er; er == nil {
 					enc, _ = p.MarshalBinary()
+					tok = tConsistent(p)
 				}
 			case 2:
 				e["suite"], e["n"], e["kind"], e["hash"], e["b"], e["r"] = "edwards25519_XMD:SHA-256_ELL2_RO_", 96, "ro", "sha256", 32, 64
@@ -242,6 +248,7 @@ func recC14(c *ctx) {
 				p, er := h2c.Edwards25519_XMD_ELL2_RO(crypto.SHA256, dst, msg)
 				if err = er; er == nil {
 					enc, _ = p.MarshalBinary()
+					tok = tConsistent(p)
 				}
 			case 3:
 				e["suite"], e["n"], e["kind"], e["xof"] = "edwards25519_XOF:SHAKE256_ELL2_RO_", 96, "ro", "shake256"
@@ -249,6 +256,7 @@ func recC14(c *ctx) {
 				p, er := h2c.Edwards25519_XOF_ELL2_RO(xofs["shake256"], dst, msg)
 				if err = er; er == nil {
 					enc, _ = p.MarshalBinary()
+					tok = tConsistent(p)
 				}
 			case 4:
 				e["suite"], e["n"], e["kind"], e["hash"], e["b"], e["r"] = "ristretto255_XMD:SHA-512_R255MAP_RO_", 64, "r255", "sha512", 64, 128
@@ -256,6 +264,7 @@ func recC14(c *ctx) {
 				p, er := h2c.Ristretto255_XMD_R255MAP_RO(crypto.SHA512, dst, msg)
 				if err = er; er == nil {
 					enc, _ = p.MarshalBinary()
+					tok = tConsistent(p)
 				}
 			case 5:
 				e["suite"], e["n"], e["kind"], e["xof"] = "ristretto255_XOF:SHAKE128_R255MAP_RO_", 64, "r255", "shake128"
@@ -263,15 +272,36 @@ func recC14(c *ctx) {
 				p, er := h2c.Ristretto255_XOF_R255MAP_RO(xofs["shake128"], dst, msg)
 				if err = er; er == nil {
 					enc, _ = p.MarshalBinary()
+					tok = tConsistent(p)
 				}
 			}
 		}) {
 			continue
 		}
-		e["ok"], e["sha"] = err == nil, t.ents
+		e["ok"], e["sha"], e["tok"] = err == nil, t.ents, tok
 		if err == nil {
 			e["out"] = vt.B(enc)
 		}
 		c.w.Emit(e)
 	}
+}
+
+// tConsistent checks, through the public API only, that a returned point is a consistent extended point: addition reads
+// the T coordinate, encoding and Equal do not, so (P + B) - B must give P back and P + identity must equal P.
+func tConsistent(p interface{}) bool {
+	switch q := p.(type) {
+	case *curve.EdwardsPoint:
+		var d, e, id, f curve.EdwardsPoint
+		d.Add(q, curve.ED25519_BASEPOINT_POINT)
+		e.Sub(&d, curve.ED25519_BASEPOINT_POINT)
+		id.Identity()
+		f.Add(&id, q)
+		return e.Equal(q) == 1 && f.Equal(q) == 1
+	case *curve.RistrettoPoint:
+		var d, e curve.RistrettoPoint
+		d.Add(q, curve.RISTRETTO_BASEPOINT_POINT)
+		e.Sub(&d, curve.RISTRETTO_BASEPOINT_POINT)
+		return e.Equal(q) == 1
+	}
+	return true
 }
